@@ -394,7 +394,11 @@ func c06Exec(op string) Result {
 			res.Tags = append(res.Tags, "interp-error")
 		}
 		if tr.result != want {
-			res.Viol = fmt.Sprintf("program %s: gomacro (frames poisoned on release) returns %q, compiled Go returns %q", name, truncate(tr.result, 200), truncate(want, 200))
+			mode := "frames poisoned on release"
+			if !tr.hook {
+				mode = "no hook in this tree: frames not poisoned, no monitor"
+			}
+			res.Viol = fmt.Sprintf("program %s: gomacro (%s) returns %q, compiled Go returns %q", name, mode, truncate(tr.result, 200), truncate(want, 200))
 			res.Key = "C06-result-" + name
 		} else if tr.leak {
 			res.Viol = fmt.Sprintf("program %s: a function returned normally but its frame was never released (freeEnv4Func not called): the monitor needs a panic-style unwind in a program without panic", name)
